@@ -7,9 +7,18 @@ neither hash nor root shows (an entry moved between two sections the state-diff 
 together, or re-stating what the state holds: re-deploy, replace of a new address, migrate of a new
 class, re-declaration, second migration) and blocks verified ahead of the head; the design switches
 (checks and state-layer guards) are flipped one at a time as a self-test (TLC must object).
+Presence / value classes: committed fields are absent / present-zero ((0,0) bound, felt 0, [0], reverted with the
+empty reason) / non-zero; the hashes are injective terms of (field -> class) as the PROTOCOL sees them, the verifier
+recomputes them as the CODE sees them (switch ZeroAsAbsent; MalformedRefused for classes no valid block has), every
+class field is moved to every other class with all hashes kept (OfferReclass: rejected) and valid blocks of the
+shapes "zero" (everything present-zero) and "void" (absent where allowed) are offered (accepted); conflating
+mutants must break BOTH directions (expected-violation configs).
 Binding: (a) TLC-generated behaviours are replayed on a real blockchain.Blockchain (both state
-backends): valid blocks come from the real Simulate, a tampered offer is a deep copy with exactly
-one concrete field altered and all declared hashes kept; the specification's accept/reject, the
+backends): valid blocks are completed by the real Simulate (roots) but declare the transaction hashes and the
+block hash of an INDEPENDENT reference (harness/internal/refimpl/blockhash.go, written from the protocol
+definition, evaluated on primitives that are not juno's, self-tested against the network's hashes of the
+repository's fixture blocks) - so "valid block rejected" is observable; a tampered offer is a deep copy with exactly
+one concrete field altered (or moved to another presence / value class) and all declared hashes kept; the specification's accept/reject, the
 raw database dump and the reader API are compared after every offer; the generator's cursor walks
 every (version, committed field) pair; a second generator grows chains that deploy, declare and
 migrate and offers every kind of inapplicable diff at every position (rejected, database and reads
@@ -32,21 +41,32 @@ def run(ctx):
 
     thorough = not ctx.quick()
     ctx.tlc_check("chain", "MCBlockVerify.tla", "BlockVerify_quick.cfg", timeout=900)
+    # the presence / value class dimension: shapes full / zero / void, every class field moved to every other class
+    ctx.tlc_check("chain", "MCBlockVerify.tla", "BlockVerify_class.cfg", timeout=900)
     # self-test of the properties: each design switch flipped must be caught by TLC (the fifth:
     # the new-root check skipped for blocks whose state diff has no entry)
+    # ("malformedcrash" likewise: a v3 transaction without a mandatory bound crashes the verifier - finding
+    # block-verify:crash:invalid-class*)
     # ("redeclare" is the model of the code as it is: Sierra re-declaration is not refused - finding
     # block-verify:accepted-inapplicable:redeclare*; every other run uses the repaired design)
-    tests = ("emptydiffroot", "nodeployguard") if not thorough else (
+    # (zerobound_*: "an all-zero l1_data_gas bound is hashed like an absent one" must break BOTH directions -
+    # a tampered block accepted, a valid block rejected; zerotip / emptyreason: two more conflations)
+    tests = ("emptydiffroot", "nodeployguard", "zerobound_sound", "zerobound_complete") if not thorough else (
         "nosucc", "noroot", "emptydiffroot", "notxhash", "earlywrite",
-        "nodeployguard", "noexistguard", "nomigrateguard", "redeclare")
+        "nodeployguard", "noexistguard", "nomigrateguard", "redeclare",
+        "zerobound_sound", "zerobound_complete", "zerotip", "emptyreason", "malformedcrash")
+    expected = {"zerobound_sound": "TamperRejected", "zerobound_complete": "ValidAccepted", "zerotip": "ValidAccepted"}
     for name in tests:
         r = ctx.tlc_check("chain", "MCBlockVerify.tla", "BlockVerify_self_%s.cfg" % name, timeout=600,
                           expect_violation=True, label="selftest:" + name)
         if r["ok"] or not r["violated"]:
             raise vlib.Broken("self-test %s: TLC did not object to the weakened design" % name)
+        if name in expected and expected[name] not in str(r["violated"]):
+            raise vlib.Broken("self-test %s: TLC reports %s, expected %s" % (name, r["violated"], expected[name]))
     ctx.coverage["spec_selftests_caught"] = len(tests)
     if thorough:
         ctx.tlc_check("chain", "MCBlockVerify.tla", "BlockVerify_thorough.cfg", timeout=3000)
+        ctx.tlc_check("chain", "MCBlockVerify.tla", "BlockVerify_class_thorough.cfg", timeout=3000)
         r = ctx.tlc_check("chain", "MCBlockVerify.tla", "BlockVerify_pending.cfg", timeout=3000, coverage=True)
         vlib.require_actions_covered(r)
 
@@ -55,11 +75,13 @@ def run(ctx):
     tables = None
     behaviours = []
     covered = set()
+    moved = set()
+    onzero = set()
     run_i = 0
     ntampers = None
     while True:
-        got = ctx.tlc_simulate("chain", "BlockVerifyMBT.tla", "BlockVerify_sim.cfg", depth=3200,
-                               seed=ctx.seed * 1000 + run_i, timeout=900)
+        got = ctx.tlc_simulate("chain", "BlockVerifyMBT.tla", "BlockVerify_sim_thorough.cfg" if thorough else "BlockVerify_sim.cfg",
+                               depth=5200, seed=ctx.seed * 1000 + run_i, timeout=900)
         run_i += 1
         for b in got:
             if isinstance(b, dict):
@@ -69,19 +91,35 @@ def run(ctx):
             for st in b:
                 if st["a"]["name"] == "OfferTampered":
                     covered.add((st["a"]["v"], st["a"]["f"]))
+                    if st["a"]["var"] == "zero":
+                        onzero.add(st["a"]["f"])
+                if st["a"]["name"] == "OfferReclass":
+                    moved.add((st["a"]["v"], st["a"]["f"], st["a"]["from"], st["a"]["kind"]))
         if tables is None:
             raise vlib.Broken("BlockVerifyMBT did not print the Committed table")
         ntampers = tables["ntampers"]
-        if len(covered) >= ntampers and run_i >= cycles:
+        zwant = {z[1] for z in tables["zerotampers"]}
+        if len(covered) >= ntampers and len(moved) >= len(tables["classtampers"]) and zwant <= onzero and run_i >= cycles:
             break
         if run_i > 12 * cycles:
-            raise vlib.Broken("behaviour generation does not cover all %d tamperings (%d)" % (ntampers, len(covered)))
+            raise vlib.Broken("behaviour generation does not cover all %d tamperings (%d) and %d class moves (%d)" % (
+                ntampers, len(covered), len(tables["classtampers"]), len(moved)))
     want = {(v, f) for v, fs in tables["committed"].items() for f in fs}
     if covered != want:
         raise vlib.Broken("generated tamperings differ from Committed: missing %s" % sorted(want - covered)[:5])
+    want_moves = {tuple(m) for m in tables["classtampers"]}
+    if moved != want_moves:
+        raise vlib.Broken("generated class moves differ from the specification's: missing %s" % sorted(want_moves - moved)[:5])
+    # every class of every class field occurs in a VALID block shape, and every 3-class field is moved along all six edges
+    classes = {k: tables[k] for k in ("shapeclass", "classin", "classof", "validclassof", "protosame")}
+    for f, cs in tables["classof"].items():
+        have = {sc[f] for sc in tables["shapeclass"].values()}
+        valid = set(tables["validclassof"][f])
+        if not valid <= have:
+            raise vlib.Broken("class field %s: no valid block shape carries class %s" % (f, sorted(valid - have)))
 
-    res = ctx.run_engine(binary, "TestBlockVerifyReplay", {"seed": 0, "start": 0, "behaviours": behaviours, "concurrent": True},
-                         timeout=3000)
+    res = ctx.run_engine(binary, "TestBlockVerifyReplay", {"seed": 0, "start": 0, "behaviours": behaviours, "concurrent": True,
+                                                           "classes": classes}, timeout=3000)
     ctx.absorb(res, "blockverify", "TestBlockVerifyReplay")
     # concurrency-only misbehaviour is not a verdict for this property (its quantifier has no "schedules")
     obs = res.get("stats", {}).get("observations") or []
@@ -107,6 +145,27 @@ def run(ctx):
     if not res.get("divergences") and replayed != want:
         raise vlib.Broken("tamperings replayed with a real target differ from Committed: missing %s"
                           % sorted(want - replayed)[:8])
+    zmiss = zwant - set(stats.get("zero_shape_covered", []))
+    ctx.coverage.pop("zero_shape_covered", None)
+    ctx.coverage["zero_shape_value_tampers_replayed"] = len(zwant) - len(zmiss)
+    if not res.get("divergences") and zmiss:
+        raise vlib.Broken("content alterations of the all-zero shape not replayed with a real target: %s" % sorted(zmiss)[:8])
+    moves_replayed = set()
+    for c in stats.get("class_covered", []):
+        mv, v = c.rsplit("@", 1)
+        f, ft = mv.rsplit(":", 1)
+        moves_replayed.add((v, f) + tuple(ft.split(">")))
+    ctx.coverage.pop("class_covered", None)
+    ctx.coverage["class_moves_in_spec"] = len(want_moves)
+    ctx.coverage["class_moves_replayed"] = len(moves_replayed)
+    if not res.get("divergences") and moves_replayed != want_moves:
+        raise vlib.Broken("class moves replayed differ from the specification's: missing %s" % sorted(want_moves - moves_replayed)[:8])
+    # valid blocks of the class shapes were offered (and, no divergence, accepted) at every version
+    for shape in ("zero", "void"):
+        n = sum(v for k, v in by_shape.items() if k.startswith("Offer///" + shape + "/"))
+        if not res.get("divergences") and n == 0:
+            raise vlib.Broken("no valid %s block was offered" % shape)
+        ctx.coverage["valid_%s_blocks_offered" % shape] = n
 
     # second generator: inapplicable state diffs (every kind on both state backends)
     kinds = set(tables["inapkinds"])
@@ -127,8 +186,8 @@ def run(ctx):
         if run_i >= 6:
             raise vlib.Broken("behaviour generation does not reach every kind of inapplicable diff on both backends: %s"
                               % sorted(set((k, n) for k in kinds for n in (0, 1)) - seen))
-    res2 = ctx.run_engine(binary, "TestBlockVerifyReplay", {"seed": 0, "start": 0, "behaviours": inap, "concurrent": False},
-                          timeout=3000)
+    res2 = ctx.run_engine(binary, "TestBlockVerifyReplay", {"seed": 0, "start": 0, "behaviours": inap, "concurrent": False,
+                                                            "classes": classes}, timeout=3000)
     n_before = len(ctx.violations)
     keep = {k: ctx.coverage.get(k) for k in ("outcomes", "offers_by_shape")}
     ctx.absorb(res2, "blockverify", "TestBlockVerifyReplay")
@@ -150,13 +209,21 @@ def run(ctx):
             raise vlib.Broken("inapplicable diffs not replayed with a real target: %s" % missing)
 
     fx = ctx.run_engine(binary, "TestBlockVerifyFixtures",
-                        {"repo": vlib.REPO, "legacy": tables["legacy"], "committed": tables["committed"]},
+                        {"repo": vlib.REPO, "legacy": tables["legacy"], "committed": tables["committed"], "classes": classes},
                         timeout=3000)
     ctx.absorb(fx, "blockverify", "TestBlockVerifyFixtures")
 
     ctx.assumptions += [
-        "hash primitives (Pedersen, Poseidon, keccak) and the commitment tries are trusted; the network's own hashes of "
-        "the repository's fixture blocks are the independent reference for the hash formulas of every format",
+        "the reference hashes of the valid synthetic blocks (transaction hashes, commitments, block hash of 0.13.2 / 0.13.4+) come "
+        "from harness/internal/refimpl (protocol definition, independent Pedersen / Poseidon / Patricia trie, keccak from "
+        "x/crypto); it is itself validated against the network's own hashes of the repository's fixture blocks (every "
+        "recomputable transaction hash, every 0.13.2+ block hash) on every run; the state ROOT of a valid block is the code's (C01 examines it); "
+        "for the older formats the fixtures are the only reference",
+        "presence / value classes are examined on representative fields (MCClassFields: resource bounds, tip, nonce, max_fee, "
+        "paymaster / account-deployment / calldata / constructor-calldata / proof-facts / signature arrays, receipt fee, gas, "
+        "revert reason, event keys / data / from, message payload / from / to, sequencer, timestamp, gas prices); nil vs empty "
+        "arrays and nil TotalGasConsumed are not told apart by the protocol and not examined; the 0.13.2 transaction leaf's "
+        "empty-signature = [0] rule is taken from the protocol (no offer distinguishes the two there)",
         "Committed[v] lists a field only when the protocol definition commits to it and no real fixture contradicts "
         "(receipt l2_gas, fee unit, execution resources, events bloom, signatures, legacy DEPLOY/DECLARE-v0 fields are "
         "deliberately not listed); see spec/chain/MCBlockVerify.tla",
@@ -169,10 +236,12 @@ def run(ctx):
         "model_checking",
         "exhaustive TLC on BlockVerify.tla (chain length <= 2 quick / 3 thorough, 4 protocol versions x 4 content shapes "
         "(full, empty diff, empty block, bare), every committed-field tamper at every position, wrong parent/number/"
-        "root (re-sealed and hash-kept) /class, verify-ahead pipeline) + TLC simulation behaviours whose "
-        "cursor enumerates every (version, committed field) pair, replayed offer by offer on real nodes (memory DB, "
-        "both state backends, with and without prior chain); distinct non-trivial case = one (version, field) "
-        "tampering applied to a real target (in a block of a shape that has one), or one hash-valid "
-        "non-continuing / wrong-root / stale-class / failed-commit offer; + every real fixture block",
-        {"distinct_nontrivial": len(replayed) + int(ctx.coverage.get("fixture_tampers_rejected", 0)),
+        "root (re-sealed and hash-kept) /class, verify-ahead pipeline; + the presence/value class dimension: shapes full / zero / "
+        "void, every class field moved to every other class) + TLC simulation behaviours whose "
+        "cursor enumerates every (version, committed field) pair, every class move (field, from, to) and every content alteration "
+        "of the all-zero shape, replayed offer by offer on real nodes (memory DB, "
+        "both state backends, with and without prior chain), valid blocks carrying reference hashes; distinct non-trivial case = one (version, field) "
+        "tampering applied to a real target (in a block of a shape that has one), one class move, or one hash-valid "
+        "non-continuing / wrong-root / stale-class / failed-commit offer; + every real fixture block (incl. class moves on their first carriers)",
+        {"distinct_nontrivial": len(replayed) + len(moves_replayed) + int(ctx.coverage.get("fixture_tampers_rejected", 0)),
          "evaluations": int(res.get("steps", 0)) + int(ctx.coverage.get("fixture_offers", 0))})
